@@ -2,7 +2,7 @@
    parity logic of SoftHSM.cpp (RFC5652Pad/Unpad, RFC3394Pad, deriveSymmetric, crypto/odd.h) for every
    input; the block cipher is abstract (any E, D with D (E b) = b).  Statements only. *)
 From Coq Require Import List NArith Bool.
-From SoftHSM Require Import Defs Pad PadFacts Modes ModesFacts Gen_Parity.
+From SoftHSM Require Import Defs Pad PadFacts Modes ModesFacts Gen_Parity Gen_Const Gen_Entry Derive DeriveFacts.
 Import ListNotations.
 
 (* PKCS#7 (RFC 5652) padding as used by CKM_AES_CBC_PAD / CKM_DES3_CBC_PAD wrapping *)
@@ -69,3 +69,54 @@ Theorem C13_odd_parity_byte_spec : forall b : N, (b < 256)%N ->
   N.odd (popcount (odd_parity_byte b)) = true /\ (b / 2 = odd_parity_byte b / 2)%N.
 Proof. exact odd_parity_byte_spec. Qed.
 Print Assumptions C13_odd_parity_byte_spec.
+
+(* ---- lengths of derived keys: the regenerated deriveDH / deriveECDH / deriveEDDSA / deriveSymmetric / checkKeyLength ---- *)
+Local Open Scope N_scope.
+
+Theorem C13_deriveDH_len : forall (e : deriveDH.env),
+  (forall n, deriveDH.zz_rest e n = SENT + n) -> deriveDH.hv1_loop_rv e < SENT ->
+  forall n, deriveDH.app e = SENT + n ->
+  deriveDH.hv1_loop_returns e = false /\ derive_len_strict (deriveDH.keyType e) (deriveDH.hv1_byteLen e) = inr n.
+Proof. exact deriveDH_len. Qed.
+Print Assumptions C13_deriveDH_len.
+
+Theorem C13_deriveSymmetric_len : forall (e : deriveSymmetric.env),
+  (forall n, deriveSymmetric.zz_rest e n = SENT + n) -> deriveSymmetric.hv1_loop_rv e < SENT ->
+  forall n, deriveSymmetric.app e = SENT + n ->
+  deriveSymmetric.hv1_loop_returns e = false /\
+  let m := deriveSymmetric.pMechanism_mechanism e in
+  let req := deriveSymmetric.hv1_byteLen e in
+  if (0 <? req) || (negb (m =? CKM_CONCATENATE_DATA_AND_BASE) && negb (m =? CKM_CONCATENATE_BASE_AND_DATA) && negb (m =? CKM_CONCATENATE_BASE_AND_KEY))
+  then derive_len_strict (deriveSymmetric.keyType e) req = inr n
+  else n = 0.        (* the concatenations without CKA_VALUE_LEN: the length is that of the concatenation, checked by checkKeyLength later *)
+Proof. exact deriveSymmetric_len. Qed.
+Print Assumptions C13_deriveSymmetric_len.
+
+Theorem C13_deriveECDH_len : forall (e : deriveECDH.env),
+  (forall n, deriveECDH.zz_rest e n = SENT + n) -> deriveECDH.hv1_loop_rv e < SENT ->
+  forall n, deriveECDH.app e = SENT + n ->
+  deriveECDH.hv1_loop_returns e = false /\ derive_len_lax (deriveECDH.keyType e) (deriveECDH.hv1_byteLen e) = inr n.
+Proof. exact deriveECDH_len. Qed.
+Print Assumptions C13_deriveECDH_len.
+
+Theorem C13_deriveEDDSA_len : forall (e : deriveEDDSA.env),
+  (forall n, deriveEDDSA.zz_rest e n = SENT + n) -> deriveEDDSA.hv1_loop_rv e < SENT ->
+  forall n, deriveEDDSA.app e = SENT + n ->
+  deriveEDDSA.hv1_loop_returns e = false /\ derive_len_lax (deriveEDDSA.keyType e) (deriveEDDSA.hv1_byteLen e) = inr n.
+Proof. exact deriveEDDSA_len. Qed.
+Print Assumptions C13_deriveEDDSA_len.
+
+Theorem C13_checkKeyLength_spec : forall (kt n : N), gen_SoftHSM__checkKeyLength kt n = CKR_OK <-> len_fits kt n = true.
+Proof. exact checkKeyLength_spec. Qed.
+Print Assumptions C13_checkKeyLength_spec.
+
+Theorem C13_strict_len_fits : forall (kt req n : N), derive_len_strict kt req = inr n -> len_fits kt n = true /\ n <> 0.
+Proof. exact strict_len_fits. Qed.
+Print Assumptions C13_strict_len_fits.
+
+Theorem C13_agreed_value_fits : forall (kt req n : N) (secret v : bytes),
+  derive_len_lax kt req = inr n -> agree_value kt n secret = Some v ->
+  len_fits kt (N.of_nat (length v)) = true /\
+  (kt = CKK_GENERIC_SECRET -> length v = if req =? 0 then length secret else N.to_nat req).
+Proof. exact agreed_value_fits. Qed.
+Print Assumptions C13_agreed_value_fits.
